@@ -43,6 +43,11 @@ type VkIface struct {
 	// ReadErrAfterMS > 0: this long after the connection was opened, reads fail with a
 	// permission-class system call error (which the recovery policy treats as fatal)
 	ReadErrAfterMS int `json:"read_err_after_ms,omitempty"`
+	// ReadErrRecoverable: the error is ENETDOWN (recoverable: the task re-dials) instead of EPERM,
+	// and it hits only the first connection of the interface
+	ReadErrRecoverable bool `json:"read_err_recoverable,omitempty"`
+	// MissingLookups: the first n lookups of the interface report that it does not exist yet
+	MissingLookups int `json:"missing_lookups,omitempty"`
 }
 
 type VkWorld struct {
@@ -68,6 +73,8 @@ var vk struct {
 	log   *os.File
 	conns int
 	auto  map[string]bool
+	looks map[string]int
+	dials map[string]int
 }
 
 func vkInit() {
@@ -85,6 +92,7 @@ func vkInit() {
 		}
 		vk.log = f
 		vk.auto = map[string]bool{}
+		vk.looks, vk.dials = map[string]int{}, map[string]int{}
 		for n, i := range vk.w.Ifaces {
 			vk.auto[n] = i.Autoconf
 		}
@@ -106,6 +114,14 @@ func vkLog(e VkEvent) {
 func vkLookupInterface(iface string) (*net.Interface, error) {
 	vkInit()
 	i, ok := vk.w.Ifaces[iface]
+	if ok {
+		vk.mu.Lock()
+		vk.looks[iface]++
+		if vk.looks[iface] <= i.MissingLookups {
+			ok = false
+		}
+		vk.mu.Unlock()
+	}
 	vkLog(VkEvent{Ev: "lookup", Iface: iface, Value: ok})
 	if !ok {
 		return nil, fmt.Errorf("interface %q does not exist: %w", iface, ErrLinkNotReady)
@@ -131,12 +147,13 @@ type vkNDPConn struct {
 	id     int
 	opened time.Time
 
-	mu       sync.Mutex
-	deadline time.Time
-	closed   bool
-	wake     chan struct{}
-	rs       []VkRS
-	failAt   time.Time
+	mu              sync.Mutex
+	deadline        time.Time
+	closed          bool
+	wake            chan struct{}
+	rs              []VkRS
+	failAt          time.Time
+	failRecoverable bool
 }
 
 func vkDialNDP(ifi *net.Interface) (*vkNDPConn, netip.Addr, error) {
@@ -146,8 +163,13 @@ func vkDialNDP(ifi *net.Interface) (*vkNDPConn, netip.Addr, error) {
 	id := vk.conns
 	vk.mu.Unlock()
 	c := &vkNDPConn{iface: ifi.Name, id: id, opened: time.Now(), wake: make(chan struct{}, 1), rs: append([]VkRS(nil), vk.w.Ifaces[ifi.Name].RS...)}
-	if ms := vk.w.Ifaces[ifi.Name].ReadErrAfterMS; ms > 0 {
-		c.failAt = c.opened.Add(time.Duration(ms) * time.Millisecond)
+	vk.mu.Lock()
+	vk.dials[ifi.Name]++
+	nth := vk.dials[ifi.Name]
+	vk.mu.Unlock()
+	if wi := vk.w.Ifaces[ifi.Name]; wi.ReadErrAfterMS > 0 && (!wi.ReadErrRecoverable || nth == 1) {
+		c.failAt = c.opened.Add(time.Duration(wi.ReadErrAfterMS) * time.Millisecond)
+		c.failRecoverable = wi.ReadErrRecoverable
 	}
 	vkLog(VkEvent{Ev: "open", Iface: ifi.Name, Conn: id})
 	return c, netip.MustParseAddr("fe80::1").WithZone(ifi.Name), nil
@@ -176,8 +198,12 @@ func (c *vkNDPConn) ReadFrom() (ndp.Message, *ipv6.ControlMessage, netip.Addr, e
 		if !c.failAt.IsZero() {
 			if !now.Before(c.failAt) {
 				c.mu.Unlock()
-				vkLog(VkEvent{Ev: "read-error", Iface: c.iface, Conn: c.id})
-				return nil, nil, netip.Addr{}, &net.OpError{Op: "read", Net: "ip6:ipv6-icmp", Err: os.NewSyscallError("recvmsg", unix.EPERM)}
+				errno := unix.EPERM
+				if c.failRecoverable {
+					errno = unix.ENETDOWN
+				}
+				vkLog(VkEvent{Ev: "read-error", Iface: c.iface, Conn: c.id, Value: c.failRecoverable})
+				return nil, nil, netip.Addr{}, &net.OpError{Op: "read", Net: "ip6:ipv6-icmp", Err: os.NewSyscallError("recvmsg", errno)}
 			}
 			wait = c.failAt.Sub(now)
 		}
